@@ -4,7 +4,7 @@
 From Coq Require Import QArith Qcanon List Arith Bool Permutation.
 From Verif.lib Require Import Bsp NpCore NpQ NpF.
 From Verif.C02 Require Import Proofs.
-From Verif.C19 Require Import Model Proofs FloatProofs.
+From Verif.C19 Require Import Model Proofs Proofs2 Proofs3 FloatProofs.
 Import ListNotations.
 Open Scope Qc_scope.
 
@@ -116,12 +116,39 @@ Theorem findspan_listed : forall kv p u, kv_valid kv = true -> kv_ok kv p ->
 Proof. exact findspan_listed_l. Qed.
 Print Assumptions findspan_listed.
 
+(* ---- Greville points ---- *)
+
+(* for p >= 1 Greville point i is the average of kv[i+1..i+p] (the clip of the source does
+   nothing in exact arithmetic); it lies in [kv[i+1], kv[i+p]], hence in the support of
+   B-spline i and in the domain; there are numdofs of them *)
+Theorem greville_in_support : forall kv p i, (1 <= p)%nat -> kv_valid kv = true -> (i < numdofs kv p)%nat ->
+  let g := nth i (greville kv p) 0 in
+  g = nth i (sl_range p p (np_convolve kv (avg_weights p))) 0 /\
+  kn kv (i + 1) <= g /\ g <= kn kv (i + p) /\
+  kn kv i <= g /\ g <= kn kv (i + p + 1) /\ kn kv 0 <= g /\ g <= kn kv (length kv - 1) /\
+  length (greville kv p) = numdofs kv p.
+Proof. exact greville_in_support_l. Qed.
+Print Assumptions greville_in_support.
+
+Theorem greville_in_domain : forall kv p x, (1 <= p)%nat -> kn kv 0 <= kn kv (length kv - 1) ->
+  In x (greville kv p) -> kn kv 0 <= x /\ x <= kn kv (length kv - 1).
+Proof. exact greville_in_domain_l. Qed.
+Print Assumptions greville_in_domain.
+
 (* ---- refinement ---- *)
 
 Theorem refine_sorted_union : forall kv new_knots,
   Permutation (refine kv new_knots) (kv ++ new_knots) /\ kv_valid (refine kv new_knots) = true.
 Proof. exact refine_sorted_union_l. Qed.
 Print Assumptions refine_sorted_union.
+
+(* uniform refinement: the new mesh is the old one with the midpoint of every span inserted
+   (every span is halved), so the number of spans doubles *)
+Theorem refine_uniform_halves : forall kv, kv <> [] ->
+  mesh (refine_uniform kv) = interleave (mesh kv) /\
+  numspans (refine_uniform kv) = (2 * numspans kv)%nat.
+Proof. exact refine_uniform_halves_l. Qed.
+Print Assumptions refine_uniform_halves.
 
 (* ---- equality (repaired, symmetric tolerance) ---- *)
 
@@ -138,3 +165,24 @@ Theorem eq_sym_old_refuted :
   exists kv1 kv2 p, kv_eq_old kv1 p kv2 p = true /\ kv_eq_old kv2 p kv1 p = false.
 Proof. exact eq_sym_old_refuted_l. Qed.
 Print Assumptions eq_sym_old_refuted.
+
+(* ---- Spline.derivative ---- *)
+
+(* for every open knot vector of degree p = q+1 >= 1, every coefficient vector and every u:
+   the spline returned by derivative() (knots kv[1:-1], degree p-1, coefficients
+   p (c[i+1]-c[i]) / (t[i+p+1]-t[i+1])) evaluates to the pointwise derivative
+   sum_i c_i N'_{i,p}(u), N' being C02's derivative recursion dNref *)
+Theorem derivative_spline : forall kv q c u, let p := S q in
+  kv_ok kv p -> length c = numdofs kv p ->
+  spline_ev (derivative_kv kv) q (derivative_coeffs kv p c) u = spline_dev kv p c u.
+Proof. exact derivative_spline_l. Qed.
+Print Assumptions derivative_spline.
+
+(* NOT PROVED (covered by the correspondence run only):
+   - open_kv (make_knots p a b n mult) p = true, the boolean well-formedness predicate of
+     lib/Bsp.v that also bounds interior multiplicities by p: proved are the parts findspan needs
+     (make_knots_open : kv_ok) and the closed form of every knot (make_knots_mult), from which the
+     multiplicity bound follows for mult <= p; the forallb-form was not assembled.
+   - greville for p = 0 (cell midpoints): only the tie checks it.
+   - np.allclose-style comparisons are modelled over exact rationals; the binary64 evaluation of
+     __eq__ is compared on inputs away from the tolerance threshold and scanned for asymmetry. *)
